@@ -1,6 +1,6 @@
 (* C07 property theorems. This file contains only statements closed by
    [exact lemma] and Print Assumptions. *)
-From V Require Import Common.Base C07.Vlq C07.SpecMap C07.Mappings C07.VlqProofs C07.MappingsProofs.
+From V Require Import Common.Base C07.Vlq C07.SpecMap C07.Mappings C07.VlqProofs C07.MappingsProofs C07.FindProofs C07.JoinProofs.
 
 (* encodeVLQ/DecodeVLQ round trip, every integer, arbitrary trailing bytes *)
 Theorem vlq_roundtrip : forall v rest, DecodeVLQ (encodeVLQ v ++ rest) = Some (v, rest).
@@ -22,3 +22,36 @@ Print Assumptions base64_table_is_rfc4648.
 Theorem mappings_roundtrip : forall ops, spec_decode (emit_bytes ops) = Some (abs_of ops 0).
 Proof. exact mappings_roundtrip_all. Qed.
 Print Assumptions mappings_roundtrip.
+
+(* SourceMap.Find (binary search) returns the last mapping at or before the
+   queried generated position, on the queried line: every sorted mapping list *)
+Theorem find_is_last_le : forall ms line col, sorted_maps ms -> Find ms line col = spec_find ms line col.
+Proof. exact find_is_spec. Qed.
+Print Assumptions find_is_last_le.
+
+(* AppendSourceMapChunk on a chunk produced by the builder writes exactly the
+   bytes the builder would write for the rebased events (start line/column,
+   source index base, name base), for every chunk and every previous state *)
+Theorem join_bytes : forall k gc si ol oc nm rest jl prevEnd start,
+  has_name start = false -> oline start = 0 -> ocol start = 0 -> 0 <= gline start ->
+  let ops := repeat ONewline k ++ OMap gc si ol oc nm :: rest in
+  AppendSourceMapChunk jl prevEnd start
+     (mkChunk (ebytes ops 0 state0) (option_map Z.of_nat (first_name_off ops 0 state0 0)))
+  = Some (ebytes (repeat ONewline (Z.to_nat (gline start))
+                  ++ rebase (gcol start) (sidx start) (oname start) true ops) jl prevEnd).
+Proof. exact join_bytes_all. Qed.
+Print Assumptions join_bytes.
+
+(* ... hence every file's mappings survive joining, shifted to the file's place *)
+Theorem join_decodes : forall ops0 k gc si ol oc nm rest start,
+  has_name start = false -> oline start = 0 -> ocol start = 0 -> 0 <= gline start ->
+  let ops := repeat ONewline k ++ OMap gc si ol oc nm :: rest in
+  let '(b0, jl, prevEnd) := emit ops0 0 state0 in
+  exists appended,
+    AppendSourceMapChunk jl prevEnd start
+      (mkChunk (emit_bytes ops) (option_map Z.of_nat (first_name_off ops 0 state0 0))) = Some appended /\
+    spec_decode (b0 ++ appended) =
+      Some (abs_of (ops0 ++ repeat ONewline (Z.to_nat (gline start))
+                    ++ rebase (gcol start) (sidx start) (oname start) true ops) 0).
+Proof. exact join_decodes_all. Qed.
+Print Assumptions join_decodes.
